@@ -70,6 +70,9 @@ fn make_text(ls: &LangSpec, rng: &mut Rng) -> String {
     format!("x = [1, 7]{s}"),
     format!("x = [7]{s}"),
     format!("y = [7, 7, 2, 7]{s}"),
+    // widened fixes that intersect in a chain: the first with the second, the second with the third, not the first with the third
+    format!("w = [7, 7, 7]{s}"),
+    format!("v = [7, 7, 7, 7, 1]{s}"),
     format!("g(7, k){s}"),
     "let a = 1;".to_string(),
     "let b = foo(3); // note".to_string(),
